@@ -1,9 +1,9 @@
 from vrun import Query
 SRC = 'C01_btree.cpp'
 CN = ['set', 'multiset', 'map', 'multimap']
-PN = {0: 'empty tree', 1: 'two levels (6 ascending keys)', 2: 'leaves at minimum fill after erasures', 3: 'three levels (ascending inserts)', 4: 'descending inserts', 5: 'bulk-loaded at an exact capacity multiple', 6: 'duplicate run spanning leaves', 7: 'run of three equivalent keys crossing a leaf boundary', 8: 'single entry (root leaf)'}
+PN = {0: 'empty tree', 1: 'two levels (6 ascending keys)', 2: 'leaves at minimum fill after erasures', 3: 'three levels (ascending inserts)', 4: 'descending inserts', 5: 'bulk-loaded at an exact capacity multiple', 6: 'duplicate run spanning leaves', 7: 'run of three equivalent keys crossing a leaf boundary', 8: 'single entry (root leaf)', 9: 'minimum-fill leaf between a full left and a 3-entry right sibling'}
 
-LEVELS = {0: 1, 1: 2, 2: 2, 3: 3, 4: 2, 5: 2, 6: 2, 7: 2, 8: 1}   # tree height reached by each prefix script; recursion bound = re-entries needed, +1 per further symbolic operation (root split), +1 for verify() after a split
+LEVELS = {0: 1, 1: 2, 2: 2, 3: 3, 4: 2, 5: 2, 6: 2, 7: 2, 8: 1, 9: 2}   # tree height reached by each prefix script; recursion bound = re-entries needed, +1 per further symbolic operation (root split), +1 for verify() after a split
 
 OPN = {0: ['insert', 'erase(key)', 'erase_one(key)', 'erase(iterator from lower_bound)'], 1: ['copy-construct', 'assign', 'swap', 'clear', 'bulk_load of a symbolic sorted range', 'copy + insert + compare']}
 
@@ -17,9 +17,9 @@ def mk(prop, cont, leaf, inner, bins, pre, ops, group, quick, gt=False, opk=None
                  'btree_%s, leaf_slots=%d inner_slots=%d, %s in-node search, prefix: %s, then %d %s, keys 0..31, symbolic probe for find/exists/count/bounds/equal_range%s%s'
                  % (CN[cont], leaf, inner, 'binary' if bins else 'linear', PN[pre], ops, opsdesc,
                     ', comparator >' if gt else '', '; verify() after every step + counting allocator' if prop == 'C02' else ''),
-                 defs=defs, link=['tlx/die/core.cpp'] if prop == 'C02' else [], cbmc=['--memory-leak-check'] if prop == 'C02' else [], tiers=('quick', 'thorough') if quick else ('thorough',),
+                 defs=defs, link=[], cbmc=['--memory-leak-check'] if prop == 'C02' else [], tiers=('quick', 'thorough') if quick else ('thorough',),
                  timeout=timeout or (3600 if quick else 10800), mem_gb=30, objbits=10, unwind=3 if opk == 3 and group == 0 else 6, max_unwind=64,
-                 recursion=max(1, LEVELS.get(pre, 2) - 1 + (ops - 1) + (1 if prop == 'C02' else 0)), weight=(pre + 1) * ops + (8 if opk == 3 else 0), validate=12)
+                 recursion=max(1, LEVELS.get(pre, 2) - 1 + (ops - 1)), weight=(pre + 1) * ops + (8 if opk == 3 else 0), validate=12)
 
 def build(prop):
     qs = []
@@ -30,13 +30,14 @@ def build(prop):
             qs.append(mk(prop, cont, 4, 4, 0, pre, 1, 0, True, opk=opk))
     qs.append(mk(prop, 0, 4, 4, 0, 1, 1, 0, True, opk=3))
     qs.append(mk(prop, 1, 4, 4, 0, 2, 1, 0, True, opk=3))
+    qs.append(mk(prop, 0, 4, 4, 0, 9, 1, 0, True, opk=3)); qs.append(mk(prop, 0, 4, 4, 0, 9, 1, 0, True, opk=2))   # underflow with unequal siblings: shift from the fuller side
     for opk in (0, 1, 2, 3): qs.append(mk(prop, 0, 4, 4, 0, 8, 1, 0, True, opk=opk))      # emptying the tree and growing the first leaf
     for opk in (0, 1, 2): qs.append(mk(prop, 0, 4, 4, 1, 1, 1, 0, True, opk=opk))          # binary in-node search
     for opk in (0, 2): qs.append(mk(prop, 3, 4, 4, 0, 7, 1, 0, True, opk=opk))            # multimap, duplicate run (the 7-fold run of prefix 6: measured time-out at 3600 s, thorough tier)
     for opk in (0, 1, 2, 3, 4, 5): qs.append(mk(prop, 2, 4, 4, 0, 1, 1, 1, True, opk=opk))  # map: whole-tree operations
     # thorough: containers x capacity pairs x both searches x scripts, one operation kind per query; two symbolic operations for (4,4)
     for cont in range(4):
-        for pre in (0, 1, 2, 3, 4, 5, 6, 7):
+        for pre in (0, 1, 2, 3, 4, 5, 6, 7, 8, 9):
             for opk in (0, 1, 2, 3): qs.append(mk(prop, cont, 4, 4, 0, pre, 1, 0, False, opk=opk))
     for cont in (0, 2):
         for pre in (1, 5):
